@@ -108,3 +108,24 @@ def names(f):
                                     n.guard = st.defn
         return n
     return _get(f, "names", go)
+
+
+
+def bookkeeping_fns(f):
+    """wait-for bookkeeping: functions whose signature mentions the wait-for map, plus plain
+    (non-async) crate functions that call one of them (e.g. an extracted `track_ask` helper or
+    the guard's destructor)."""
+    def go():
+        base = set(wait_map_fns(f))
+        out = set(base)
+        for b in f.fn_bodies():
+            d = b.root or b.defn
+            fn = f.fns.get(d)
+            if fn is None or fn.get("async") or b.is_coroutine or d in out:
+                continue
+            for blk in b.calls():
+                c = (blk.term.get("fn") or {}).get("def")
+                if c in base:
+                    out.add(d)
+        return out
+    return _get(f, "bookkeeping_fns", go)
